@@ -502,6 +502,15 @@ func (u *Unit) useLemma(name string, pkg *types.Package) error {
 			wfReqs = append(wfReqs, wf)
 		}
 	}
+	if lemmaMentionsOld(lm) {
+		// a two-state (frame) lemma is not turned into one axiom quantified over heaps (no usable
+		// trigger); it is instantiated for the heap before / after every call instead
+		u.twoState = append(u.twoState, &twoStateLemma{lm: lm, pkg: lpkg})
+		if lm.Trusted {
+			u.trusted["axiom "+name] = true
+		}
+		return nil
+	}
 	hs, ohs := map[string]string{}, map[string]string{}
 	env := &Env{x: x, u: u, vars: vars, bound: map[string]Val{}, pkg: lpkg, heapSyms: hs, oldHeapSyms: ohs}
 	var reqs, enss []string
@@ -681,4 +690,145 @@ func (eng *Engine) VerifyLemma(lm *Lemma) (u *Unit) {
 		u.addObl(&Obligation{Name: fmt.Sprintf("%s:ensures%s", name, clauseLabel(lm.Ensures[i])), Kind: "lemma", Clause: lm.Ensures[i].Src, Goal: en, For: lm.For})
 	}
 	return u
+}
+
+type twoStateLemma struct {
+	lm  *Lemma
+	pkg *types.Package
+}
+
+func exprMentionsOld(e Expr) bool {
+	found := false
+	var walk func(e Expr)
+	walk = func(e Expr) {
+		switch t := e.(type) {
+		case *ECall:
+			if id, ok := t.Fun.(*EIdent); ok && id.Name == "old" {
+				found = true
+			}
+			walk(t.Fun)
+			for _, a := range t.Args {
+				walk(a)
+			}
+		case *EUnary:
+			walk(t.X)
+		case *EBinary:
+			walk(t.X)
+			walk(t.Y)
+		case *ESel:
+			walk(t.X)
+		case *EIndex:
+			walk(t.X)
+			walk(t.I)
+		case *ESlice:
+			walk(t.X)
+			if t.Lo != nil {
+				walk(t.Lo)
+			}
+			if t.Hi != nil {
+				walk(t.Hi)
+			}
+		case *EQuant:
+			walk(t.Body)
+		}
+	}
+	walk(e)
+	return found
+}
+
+func lemmaMentionsOld(lm *Lemma) bool {
+	for _, c := range lm.Requires {
+		if exprMentionsOld(c.E) {
+			return true
+		}
+	}
+	for _, c := range lm.Ensures {
+		if exprMentionsOld(c.E) {
+			return true
+		}
+	}
+	return false
+}
+
+// applyTwoStateLemmas: after a call that changed the heap, every frame lemma in use is assumed for
+// (old = heap before the call, current = heap after it), quantified over its parameters only.
+func (x *Executor) applyTwoStateLemmas(before, after *State) {
+	u := x.u
+	if len(u.twoState) == 0 || u.mute > 0 {
+		return
+	}
+	changed := len(before.heap) != len(after.heap)
+	if !changed {
+		for c, v := range after.heap {
+			if before.heap[c] != v {
+				changed = true
+				break
+			}
+		}
+	}
+	if !changed {
+		return
+	}
+	for _, ts := range u.twoState {
+		lm := ts.lm
+		vars := map[string]Val{}
+		var binders, reqs, enss, pats []string
+		bad := false
+		for _, p := range lm.Params {
+			ty, err := u.resolveType(p.Type, ts.pkg)
+			if err != nil {
+				bad = true
+				break
+			}
+			n := "l$" + p.Name
+			vars[p.Name] = Val{T: n, Ty: ty}
+			binders = append(binders, fmt.Sprintf("(%s %s)", n, u.sortOf(ty)))
+			if wf := u.wfValue(n, ty, 0); wf != "true" && !lm.Trusted {
+				reqs = append(reqs, wf)
+			}
+		}
+		if bad {
+			continue
+		}
+		env := &Env{x: x, u: u, vars: vars, bound: map[string]Val{}, pkg: ts.pkg, st: after, old: before}
+		for _, r := range lm.Requires {
+			t, err := env.Eval(r.E)
+			if err != nil {
+				bad = true
+				break
+			}
+			reqs = append(reqs, t.T)
+		}
+		for _, r := range lm.Ensures {
+			t, err := env.Eval(r.E)
+			if err != nil {
+				bad = true
+				break
+			}
+			enss = append(enss, t.T)
+		}
+		for _, p := range lm.Pattern {
+			if exprMentionsOld(p) {
+				continue
+			}
+			t, err := env.Eval(p)
+			if err != nil {
+				bad = true
+				break
+			}
+			pats = append(pats, t.T)
+		}
+		if bad {
+			u.unsupported("two-state lemma " + lm.Name + " could not be instantiated")
+			continue
+		}
+		body := fmt.Sprintf("(=> (and true %s) (and true %s))", strings.Join(reqs, " "), strings.Join(enss, " "))
+		if len(pats) > 0 {
+			body = fmt.Sprintf("(! %s :pattern (%s))", body, strings.Join(pats, " "))
+		}
+		if len(binders) > 0 {
+			body = fmt.Sprintf("(forall (%s) %s)", strings.Join(binders, " "), body)
+		}
+		u.emit("(assert " + body + ")")
+	}
 }
